@@ -101,8 +101,24 @@ func c04(r *Report) {
 	}
 	r.Gate(Gate{ID: "C04.mw.validated-with-audience", Fn: mw, Effect: granted, Check: validate})
 	r.Gate(Gate{ID: "C04.mw.best-practices", Fn: mw, Effect: granted, Check: ErrCheck(Fn(tv2, "", "bestPracticesCheck"))})
+	// the comment compared is that of the entry whose key set verified the signature (not of any registered entry: a
+	// helper that searches all entries for the issuer lets the holder of key B sign as A)
+	var verifyingKey ssa.Value
+	for _, f := range WithAnons(mw) {
+		for _, ci := range Calls(f, Fn(jwtPkg, "", "WithKeySet")) {
+			if b := FieldBase(CallArg(ci.Common(), 0)); b != nil {
+				verifyingKey = b
+			}
+		}
+	}
+	ownerComment := VPat{"comment of the authorized_keys entry whose key set verified the token", func(v ssa.Value) bool {
+		if !FieldV("authorizedKey", "comment").M(v) {
+			return false
+		}
+		return verifyingKey == nil || FieldBase(v) == verifyingKey
+	}}
 	r.Gate(Gate{ID: "C04.mw.issuer-is-key-owner", Fn: mw, Effect: granted,
-		Check: CmpCheck("authorizedKey.comment == token.Issuer()", token.EQL, FieldV("authorizedKey", "comment"), CallV(Fn(jwtPkg, "Token", "Issuer"), -1), true)})
+		Check: CmpCheck("authorizedKey.comment == token.Issuer()", token.EQL, ownerComment, CallV(Fn(jwtPkg, "Token", "Issuer"), -1), true)})
 	r.ReturnsOnly("C04.mw.failure-is-401", mw, -1, false, DynParam("next"), Fn(tv2, "", "accessGranted"), Fn(tv2, "", "unauthorizedError"))
 	// unauthorizedError builds a 401
 	c04Unauthorized(r)
@@ -130,6 +146,10 @@ func c04(r *Report) {
 	r.Gate(Gate{ID: "C04.bp.mandatory-fields", Fn: bp, Effect: SuccessReturn(), ForEach: true, Check: OkCheck(Fn(jwtPkg, "Token", "Get"))})
 	r.Gate(Gate{ID: "C04.bp.jti-uuid", Fn: bp, Effect: SuccessReturn(), Check: ErrCheck(Fn("github.com/google/uuid", "", "Parse"))})
 	r.Gate(Gate{ID: "C04.bp.lifetime", Fn: bp, Effect: SuccessReturn(), Check: Check{Desc: "Expiration().After(bound) false (all sites)", Call: ptr(Fn("std:time", "Time", "After")), Result: -1, Pass: IsFalse, MinSite: 3}})
+	// jwt.Validate skips the expiry check for exp == 0 (the epoch reads as "not set"): the bounded lifetime needs a lower
+	// bound of its own (fix: token with exp 0 never expired)
+	r.Gate(Gate{ID: "C04.bp.expires-in-the-future", Fn: bp, Effect: SuccessReturn(),
+		Check: TimeOrder("time.Now() is before token.Expiration()", NowV(), CallV(Fn(jwtPkg, "Token", "Expiration"), -1), IsTrue)})
 	r.Gate(Gate{ID: "C04.bp.subject", Fn: bp, Effect: SuccessReturn(), Check: CmpCheck("Subject() == \"\" is false", token.EQL, CallV(Fn(jwtPkg, "Token", "Subject"), -1), StrV(""), false)})
 	c04MandatoryFields(r)
 
